@@ -9,7 +9,7 @@ import rxsci.compression.z as z
 import rxsci.compression.zstd as zstd
 
 from rxsim.runner import Check, Outcome
-from rxsim.bytesim import gen_cuts, cut, drive, collect
+from rxsim.bytesim import gen_cuts, cut, drive, collect, drive_concurrent, merge_order
 
 TEXT = b'the quick brown fox jumps over the lazy dog \n'
 
@@ -42,7 +42,7 @@ class C16(Check):
     real = ['rxsci.compression.z / zstd compress() and decompress() (current working tree)', 'zlib, zstandard (C libraries)', 'RxPY Subject/pipe']
     stubs = ['producer of the chunks', 'transport re-cutting / truncating the compressed bytes', 'final subscriber']
     assumptions = ['reference decoders (gzip module, zstandard stream reader) are trusted']
-    probe_names = ('one_chunk_inflates>1MiB', 'codec:gzip', 'codec:zstd', 'empty_list', 'empty_chunk_in', 'empty_segment', 'empty_segment_after_end', 'one_byte_segments',
+    probe_names = ('concurrent_streams', 'one_chunk_inflates>1MiB', 'codec:gzip', 'codec:zstd', 'empty_list', 'empty_chunk_in', 'empty_segment', 'empty_segment_after_end', 'one_byte_segments',
                    'incompressible', 'input>=64KiB', 'truncations_all_offsets', 'swept_all_single_cuts')
     quick_budget = 20.0
     quick_cap = 100000
@@ -61,6 +61,9 @@ class C16(Check):
             chunks.append({'kind': kind, 'n': size, 'seed': rng.randrange(1000)})
         case = {'codec': codec, 'chunks': chunks, 'cutseed': rng.randrange(1 << 30),
                 'truncs': rng.choice(['all', 'all', 'sample', 'none'])}
+        if not big and rng.random() < 0.25:
+            case['concurrent'] = [[{'kind': rng.choice(['zeros', 'text', 'rand']), 'n': rng.choice([0, 1, 50, 300, 3000]), 'seed': rng.randrange(1000)}
+                                   for _ in range(rng.choice([1, 2, 3]))] for _ in range(rng.choice([1, 1, 2]))]
         return case
 
     def valid(self, case):
@@ -138,6 +141,33 @@ class C16(Check):
                 if term is None or term[0] != 'error':
                     out.add('truncation-not-flagged', codec, {'truncate': o, 'compressed_len': n, 'terminal': repr(term)})
                     break
+        # several streams of the same codec alive at the same time, their chunks interleaved by the seeded schedule
+        if not out.violations and case.get('concurrent'):
+            others = [[mk_chunk(c) for c in cl] for cl in case['concurrent']]
+            streams = [data] + others
+            rng = random.Random(case['cutseed'] ^ 0x77)
+            res = drive_concurrent(streams, lambda i: mod.compress(), merge_order(rng, [len(x) for x in streams]))
+            p['concurrent_streams'] += 1
+            blobs = []
+            for i, (pieces_i, term_i) in enumerate(res):
+                b_i = b''.join(pieces_i)
+                blobs.append(b_i)
+                try:
+                    ref_i = reference_decode(codec, b_i)
+                except Exception as e:
+                    ref_i = e
+                if term_i is None or term_i[0] != 'completed' or ref_i != b''.join(streams[i]):
+                    out.add('concurrent-compress', codec, {'stream': i, 'of': len(streams), 'terminal': repr(term_i),
+                                                           'decoded_len': len(ref_i) if isinstance(ref_i, bytes) else repr(ref_i)[:200],
+                                                           'expected_len': len(b''.join(streams[i]))})
+                    break
+            if not out.violations:
+                cut_lists = [cut(b_i, gen_cuts(rng, len(b_i), [1, 2, len(b_i) - 1])) for b_i in blobs]
+                res = drive_concurrent(cut_lists, lambda i: mod.decompress(), merge_order(rng, [len(x) for x in cut_lists]))
+                for i, (got_i, term_i) in enumerate(res):
+                    if term_i is None or term_i[0] != 'completed' or b''.join(got_i) != b''.join(streams[i]):
+                        out.add('concurrent-decompress', codec, {'stream': i, 'of': len(streams), 'terminal': repr(term_i)})
+                        break
         out.steps = runs
         out.ticks = n
         out.digest = repr((len(blob), blob[:64].hex(), [v.to_json() for v in out.violations], runs))
